@@ -1,18 +1,71 @@
 import PilotaModel.TGen.Decode
+import PilotaModel.Lemmas.Tolerant
+import PilotaModel.Lemmas.ProjMono
+import PilotaModel.Lemmas.OpsRun
 /-
   C08 — generated decoders are tolerant readers.
   The tolerance decisions of the emitted field loops (`codegen_decode_fields`, the union arm of
   `codegen_enum_impl`, the required check and default filling of `codegen_decode`), stated outright
   for EVERY protocol reader `R`, every document, every reader state.
 
-  Full statement (not yet proved; DESIGN.md section 8, `tolerant`):
-    decode dr n p (run p (encode dw n v)) = project dw dr v      for every writer schema dw.
-  Proved here: each decision the projection is made of.  Not true of the code as it is (known
-  findings D26, D29): container element types and the wire type of a union variant are not
-  checked; `union_known_id_decoded_whatever_the_wire_type` states what the code does instead.
+  Main theorem (`tolerant_binary`, binary / little-endian / unchecked binary): for every document,
+  every declared type, every well-typed wire value `w` — i.e. whatever schema the writer had —
+  decoding the encoding of `w` returns exactly the value-level projection `projTy` of `w` (known
+  fields by declared type, unknown and retyped fields dropped, defaults filled, required checked,
+  union rules) and leaves exactly the trailing input.  Domain of the projection (`projTy … = some _`):
+  containers whose element wire types are the declared ones and union variants whose wire type is
+  the declared one — outside it the code misreads (known findings D26, D29;
+  `union_known_id_decoded_whatever_the_wire_type` states what it does instead) — and unknown
+  fields nested no deeper than the skipper's budget.  The compact protocol is covered by the
+  decision theorems below and by T1, not yet by the main theorem (`tolerant_compact` is open).
 -/
 namespace Pilota.Props.C08
 open Pilota Pilota.Thrift Pilota.TGen
+
+/-- **Tolerant reader, binary family.**  Whatever the writer's schema was: if the wire value `w` is
+well typed and lies in the projection's domain, decoding its encoding yields exactly the projection
+and consumes exactly its bytes. -/
+theorem tolerant_binary (e : Endian) (dp : Option Nat) (d : Doc) (n : String) (w v : TVal) (rest : Bytes) (f : Nat)
+    (hw : w.wt = true) (hp : projTy d dp f (.ref n) w = some (.ok v)) :
+    ∃ g, decTy (binRd e dp) d g (.ref n) (Binary.run e w.ops ++ rest) = .ok (v, rest) ∧
+      ∀ g', g ≤ g' → decTy (binRd e dp) d g' (.ref n) (Binary.run e w.ops ++ rest) = .ok (v, rest) := by
+  rw [Binary.run_ops]
+  refine ⟨f, ?_, ?_⟩
+  · exact (corr_all e dp d f).1 (.ref n) w rest (.ok v) hw hp
+  · intro g' hg
+    exact (corr_all e dp d g').1 (.ref n) w rest (.ok v) hw (projTy_mono d dp f g' hg _ w v hp)
+
+/-- the same at the budget the emitted `decode` entry point really uses, for errors as well as values:
+the outcome of `decode` IS the projection's outcome. -/
+theorem decode_is_projection (e : Endian) (dp : Option Nat) (d : Doc) (n : String) (w : TVal) (rest : Bytes) (o : Out TVal)
+    (hw : w.wt = true)
+    (hp : projTy d dp (3 * (Binary.run e w.ops ++ rest).length + 8) (.ref n) w = some o) :
+    decode (binRd e dp) d n (Binary.run e w.ops ++ rest) = withRest rest o := by
+  unfold decode
+  have : (binRd e dp).remaining (Binary.run e w.ops ++ rest) = (Binary.run e w.ops ++ rest).length := rfl
+  rw [this]
+  have h := (corr_all e dp d _).1 (.ref n) w rest o hw hp
+  rw [Binary.run_ops] at h ⊢
+  exact h
+
+/-- never a wrong value: in the domain, a successful decode can only return the projection. -/
+theorem no_wrong_value (e : Endian) (dp : Option Nat) (d : Doc) (n : String) (w : TVal) (rest : Bytes) (o : Out TVal)
+    (got : TVal) (r : Bytes) (hw : w.wt = true)
+    (hp : projTy d dp (3 * (Binary.run e w.ops ++ rest).length + 8) (.ref n) w = some o)
+    (hd : decode (binRd e dp) d n (Binary.run e w.ops ++ rest) = .ok (got, r)) :
+    o = .ok got ∧ r = rest := by
+  rw [decode_is_projection e dp d n w rest o hw hp] at hd
+  cases o <;> simp [withRest, mapOut] at hd
+  exact ⟨by rw [hd.1], hd.2.symm⟩
+
+/-! what the projection says, on a reader `S {1: required i32 a, 3: optional bool b = true}` fed by a writer that sent
+an unknown nested field 2, field 1, and field 3 retyped to a string: -/
+def demoDoc : Doc := [("S", .struct [{ id := 1, ty := .i32, required := true }, { id := 3, ty := .bool, required := false, dflt := some (.bool true) }])]
+def demoWire : TVal := .struct (.cons 2 (.list .i16 (.cons (.i16 7) .nil)) (.cons 1 (.i32 5) (.cons 3 (.bin [120]) .nil)))
+example : demoWire.wt = true := by decide
+example : projTy demoDoc (some 64) 9 (.ref "S") demoWire = some (.ok (.struct (.cons 1 (.i32 5) (.cons 3 (.bool true) .nil)))) := by decide
+/-- a missing required field is an error of the projection, hence (decode_is_projection) of the decoder -/
+example : projTy demoDoc (some 64) 9 (.ref "S") (.struct (.cons 3 (.bool false) .nil)) = some (.err .invalid) := by decide
 
 variable {σ : Type} (R : Rd σ) (d : Doc)
 
